@@ -199,7 +199,7 @@ def run_shard(shard):
         out.count("evaluations")
         out.sadd("state_keys", hash(repr(case)))
         try:
-            dpool, npool = E.build_program(case)
+            dpool, npool = E.build_program(case, strict=True)
         except Exception:
             out.count("not_a_program")
             continue
